@@ -1,6 +1,7 @@
 """C15 — select() hits exactly the matching nodes; replace keeps the rest intact."""
 
 import collections
+import types
 import copy
 
 import fiddle as fdl
@@ -32,9 +33,9 @@ ASSUMPTIONS = [
     'containers may be rebuilt by replace; only Buildables are required to keep identity',
 ]
 BUDGET = {'quick': 16 * 500, 'thorough': 16 * 12000}
-FLOORS = {'match_shared_or_nested': 0.063, 'op_replace': 0.162, 'filter_type': 0.2}
+FLOORS = {'match_shared_or_nested': 0.03, 'op_replace': 0.162, 'filter_type': 0.2}
 
-_FS = ['things:Base', 'things:Mid', 'things:LeafCls', 'things:Other', 'things:f2']
+_FS = ['things:Base', 'things:Mid', 'things:LeafCls', 'things:Other', 'things:f2', 'things:BaseCM.make']
 _BT = {'Buildable': fdl.Buildable, 'Config': fdl.Config, 'Partial': fdl.Partial}
 
 
@@ -43,7 +44,8 @@ def strategy_(draw, tier):
   recipe = draw(dags.dag(
       max_nodes=10, min_nodes=3, tags=True, bts=('Config', 'Config', 'Partial'),
       kinds=['B', 'B', 'B', 'B', 'list', 'tuple', 'dict', 'nt', 'Bpo'],
-      fns=['things:f2', 'things:Base', 'things:Mid', 'things:LeafCls', 'things:Other', 'things:h1'],
+      fns=['things:f2', 'things:Base', 'things:Mid', 'things:LeafCls', 'things:Other', 'things:h1',
+           'things:BaseCM.make', 'things:SubCM.make'],
       root_kinds=['B'], p_alias=0.8, allow_copyof=draw(st.booleans())))
   T = draw(st.sampled_from(['TagA', 'TagB', 'TagC', 'TagX']))
   if draw(st.floats(0, 1)) < 0.25:
@@ -92,7 +94,8 @@ def check(case):
     if not isinstance(b, bt):
       return False
     fn = b.__fn_or_cls__
-    if fn is F:
+    if fn is F or (isinstance(F, types.MethodType) and fn == F):
+      # a bound (class)method is a new object at every attribute access: equal, not identical
       return True
     return bool(ms and isinstance(F, type) and isinstance(fn, type) and issubclass(fn, F))
 
